@@ -1,6 +1,8 @@
 package vm
 
 import (
+	"fmt"
+
 	"github.com/elk-language/elk/value"
 	"github.com/elk-language/elk/value/symbol"
 )
@@ -48,40 +50,69 @@ func initTuple() {
 
 			length := lengthVal.AsInt()
 
+			// A bound is an index: negative values count from the end,
+			// values outside of the tuple are out of range.
+			// An open side of the range excludes its bound afterwards,
+			// so that `0..<0` or `-1<..` never wrap around to the other end.
+			var boundErr value.Value
+			bound := func(v value.Value) int {
+				i, ok := value.IntToGoInt(v)
+				if !ok {
+					if boundErr.IsUndefined() {
+						if i == -1 {
+							boundErr = value.Ref(value.NewIndexOutOfRangeError(v.Inspect(), length))
+						} else {
+							boundErr = value.Ref(value.NewCoerceError(value.IntClass, v.Class()))
+						}
+					}
+					return 0
+				}
+				if i < 0 {
+					if i < -length {
+						if boundErr.IsUndefined() {
+							boundErr = value.Ref(value.NewIndexOutOfRangeError(v.Inspect(), length))
+						}
+						return 0
+					}
+					i += length
+				}
+				return i
+			}
+
 			var start int
-			end := lengthVal.AsInt() - 1
+			end := length - 1
 
 			switch r := rangeVal.(type) {
 			case *value.ClosedRange:
-				start = r.Start.AsInt()
-				end = r.End.AsInt()
+				start = bound(r.Start)
+				end = bound(r.End)
 			case *value.LeftOpenRange:
-				start = r.Start.AsInt() + 1
-				end = r.End.AsInt()
+				start = bound(r.Start) + 1
+				end = bound(r.End)
 			case *value.RightOpenRange:
-				start = r.Start.AsInt()
-				end = r.End.AsInt() - 1
+				start = bound(r.Start)
+				end = bound(r.End) - 1
 			case *value.OpenRange:
-				start = r.Start.AsInt() + 1
-				end = r.End.AsInt() - 1
+				start = bound(r.Start) + 1
+				end = bound(r.End) - 1
 			case *value.BeginlessOpenRange:
-				end = r.End.AsInt() - 1
+				end = bound(r.End) - 1
 			case *value.BeginlessClosedRange:
-				end = r.End.AsInt()
+				end = bound(r.End)
 			case *value.EndlessOpenRange:
-				start = r.Start.AsInt() + 1
+				start = bound(r.Start) + 1
 			case *value.EndlessClosedRange:
-				start = r.Start.AsInt()
+				start = bound(r.Start)
+			}
+			if boundErr.IsNotUndefined() {
+				return value.Undefined, boundErr
 			}
 
-			start, err = value.NormalizeArrayIndex(start, length)
-			if err.IsNotUndefined() {
-				return value.Undefined, err
+			if start >= length {
+				return value.Undefined, value.Ref(value.NewIndexOutOfRangeError(fmt.Sprint(start), length))
 			}
-
-			end, err = value.NormalizeArrayIndex(end, length)
-			if err.IsNotUndefined() {
-				return value.Undefined, err
+			if end >= length {
+				return value.Undefined, value.Ref(value.NewIndexOutOfRangeError(fmt.Sprint(end), length))
 			}
 
 			var result value.ArrayTupleOfValue
